@@ -248,6 +248,45 @@ mod proofs {
         core::mem::forget(out);
     }
 
+    #[kani::proof] #[kani::unwind(14)] #[kani::stub(alloc::fmt::format, fmt_stub)] #[kani::stub(<[u64]>::sort_unstable, sort_noop)]
+    #[kani::stub(a5::core::serialization::get_resolution, res_stub)]
+    fn k_su3() { su_body::<3>(); }
+
+    fn max_body<const N: usize>() {
+        warm();
+        unsafe { a5::verif_set::ASSUME_UNIQUE = true; }
+        let input: [u64; N] = kani::any();
+        let mut i = 0;
+        while i < N { kani::assume(spec_valid(input[i])); if i > 0 { kani::assume(input[i - 1] < input[i]); } i += 1; }
+        i = 0;
+        while i < N { let mut j = 0; while j < N { if i != j { kani::assume(!spec_covers(input[i], input[j])); } j += 1; } i += 1; }
+        let out = match a5::compact(&input) { Ok(v) => v, Err(_) => { assert!(false); return; } };
+        let idx: usize = kani::any();
+        kani::assume(idx < N && idx < out.len());
+        let c = out[idx];
+        let r = spec_res(c);
+        let mut group: u32 = 0; // how many further siblings are needed / found
+        let (is_first, stride, need) = if r >= 2 {
+            let st = 1u64 << (2 * (30 - r) as u32);
+            ((c & (3 * st)) == 0, st, 3u32)
+        } else if r == 1 { (((c >> 58) % 5) == 0, 1u64 << 58, 4u32) } else { (false, 0, 0) };
+        if is_first {
+            let mut j = 1u64;
+            while j <= 4 {
+                if (j as u32) <= need {
+                    let want = c + j * stride;
+                    let mut k = 0; while k < N { if k < out.len() && out[k] == want { group += 1; } k += 1; }
+                }
+                j += 1;
+            }
+            assert!(group < need);
+        }
+        core::mem::forget(out);
+    }
+    #[kani::proof] #[kani::unwind(14)] #[kani::stub(alloc::fmt::format, fmt_stub)] #[kani::stub(<[u64]>::sort_unstable, sort_noop)]
+    #[kani::stub(a5::core::serialization::get_resolution, res_stub)]
+    fn k_max4() { max_body::<4>(); }
+
     pub fn res_stub(x: u64) -> i32 {
         // bits examined by the real loop: odd bits 1..55, then 56, then 57
         const M: u64 = 0x02AA_AAAA_AAAA_AAAA | (1u64 << 56);
